@@ -656,11 +656,13 @@ example : (legalRun exT0 (.release "v2" :: (List.replicate 10 exRound).flatten))
 The clean-up cursor `status.canaryStatus.finalisingStep` is shared by four task lists: the reset of a superseded release
 (`doProgressingReset`: gateway → BatchRelease → canary Service) and the clean-ups for success / rollback / the other exit reasons
 (`doCanaryFinalising`).  When one of these activities is abandoned or overtaken before it finished — the user pushes `v3` during
-the release of `v2` and then returns to `v2`, or rolls back, or deletes the Rollout — the next activity resumes from the cursor
-the previous one left and skips every task before it; and the reconcile that notices a deletion still runs the `Progressing`
-branch once more (a reset then deletes the BatchRelease the exit clean-up would have resumed).  Both witnesses below are replayed
-on the real controllers on every run (corpus `closedloop/finding-abandonedCleanup.jsonl`); candidate repair:
-`fixes/cltraffic-stale-cursor.patch`. -/
+the release of `v2` and then returns to `v2`, or rolls back — the next activity resumes from the cursor
+the previous one left and skips every task before it.  The deletion / disabling variants (the reconcile that notices a deletion still
+runs the `Progressing` branch once more; the exit clean-up then resumed from the cursor that branch left) are REPAIRED by the cursor
+reset in `Reconcile` (fix "cursor reset", `RV.RolloutSM.resetOnExit`; regression example `loop_overtaken_cleanup_cursor_reset`).
+What stays open is the variant in which the rollout never leaves Progressing (`abandonedHist`); both histories are replayed on the
+real controllers on every run (corpus `closedloop/finding-abandonedCleanup.jsonl`, `closedloop/fixed-abandonedCleanup-delete.jsonl`);
+candidate repair of the remainder: `fixes/cltraffic-stale-cursor.patch`. -/
 
 /-- `v2` is released up to step 1 (20 % routed); the user pushes `v3`, the Rollout controller starts the reset (route withdrawn,
     BatchRelease deleted, cursor `ReleaseWorkloadControl`); the user returns to `v2`; fair rounds to the end -/
@@ -672,19 +674,30 @@ def abandonedHist : List Label :=
 def overtakenHist : List Label :=
   .release "v2" :: (List.replicate 14 exRound).flatten ++ [.release "v3", .env, .delete] ++ (List.replicate 20 exRound).flatten
 
-/-- **known finding `abandonedCleanup` — witnesses** (the full-strength statement "every terminal state of every history — a
-    release, rollback or deletion at any time — satisfies `terminalClean`" is FALSE for the unchanged code):
-    (1) after `abandonedHist` the rollout reports Healthy / Completed while the clean-up ran only `ReleaseWorkloadControl`: the
+/-- **known finding `abandonedCleanup` — witness** (the full-strength statement "every terminal state of every history — a
+    release, rollback or deletion at any time — satisfies `terminalClean`" is FALSE):
+    after `abandonedHist` the rollout reports Healthy / Completed while the clean-up ran only `ReleaseWorkloadControl`: the
     canary Ingress still routes 50 %, the canary Service exists, the stable Service is pinned to `v1`, and the CloneSet is left at
-    partition 50 % with 5 of 10 pods updated;
-    (2) after `overtakenHist` the Rollout is gone and the stable Service is still pinned to `v1`. -/
+    partition 50 % with 5 of 10 pods updated.  (This variant — a reset abandoned by going back to the revision being released,
+    the rollout never leaves Progressing — is NOT repaired by the cursor reset in `Reconcile`; it stays open.) -/
 theorem loop_terminal_clean_full_FALSE :
     (run exT0 abandonedHist).map (fun s =>
         s.ro.phase == .healthy && s.ro.reason == .completed && !terminalCleanOK s &&
         s.net.canaryIng == some 50 && s.net.canarySvc == some "v2" && s.net.stableSel == some "v1" &&
-        (match s.wl with | some w => w.partition == some (.pct 50) && w.updated == 5 && !w.inProgressAnno | none => false)) = some true ∧
-    (run exT0 overtakenHist).map (fun s => s.gone && !terminalCleanOK s && s.net.stableSel == some "v1") = some true := by
-  constructor <;> decide +kernel
+        (match s.wl with | some w => w.partition == some (.pct 50) && w.updated == 5 && !w.inProgressAnno | none => false)) = some true := by
+  decide +kernel
+
+/-- **fixed variant of `abandonedCleanup` (deletion / disabling) — regression example**: before the cursor reset in `Reconcile`
+    (`RV.RolloutSM.resetOnExit`), after `overtakenHist` — `v3` pushed during the release of `v2`, the Rollout deleted before the
+    Rollout controller reconciles — the Rollout was gone with the stable Service still pinned to `v1`: the reconcile that notices the
+    deletion still runs the reset of the Progressing branch, and the deletion sequence resumed from the cursor the reset left.  Now
+    that reconcile clears the cursor, the deletion sequence runs from its first task, and the Rollout is gone with a clean terminal
+    state: nothing pinned, no canary Service / Ingress, no BatchRelease, the CloneSet released. -/
+theorem loop_overtaken_cleanup_cursor_reset :
+    (run exT0 overtakenHist).map (fun s =>
+      s.gone && terminalCleanOK s && s.net.stableSel.isNone && s.net.canaryIng.isNone && s.net.canarySvc.isNone && s.br.isNone &&
+      (match s.wl with | some w => w.partition.isNone && !w.paused && !w.inProgressAnno | none => false)) = some true := by
+  decide +kernel
 
 /-! ### non-vacuity: concrete initial states and histories (kernel evaluation of the model — tests, not the ∀ claims) -/
 
